@@ -261,9 +261,11 @@ def c07_update(report, cfg):
                     buf2, _, _ = by_name(it, v2, ht, "buffer")
                     pos2, _, _ = by_name(it, buf2, bt, "pos")
                     if it.to_bits(comp2, ct) != s:
-                        report.violated("R7.6", ikey, "%s::update does not feed exactly the %d complete blocks of the stream to the compressor" % (name, nfull))
+                        report.violated("R7.6", ikey, "%s::update does not feed exactly the %d complete blocks of the stream to the compressor" % (name, nfull),
+                                        graphs=(it.to_bits(comp2, ct), s))
                     elif cnt2 != bv.add(cnt, bv.const(nfull, 64)):
-                        report.violated("R7.6", ikey, "%s::update: block counter is not advanced by the number of compressed blocks (%d)" % (name, nfull))
+                        report.violated("R7.6", ikey, "%s::update: block counter is not advanced by the number of compressed blocks (%d)" % (name, nfull),
+                                        graphs=(cnt2, bv.add(cnt, bv.const(nfull, 64))))
                     elif bv.const_value(pos2) != (p + ln) - nfull * bb:
                         report.violated("R7.6", ikey, "%s::update: wrong number of buffered bytes" % name)
                     else:
